@@ -316,7 +316,7 @@ def form_oracles(ctx, st, A, kind, case, S, B, nets, g, scale):
 # proposed/F23_gradient_bases_list_of_str.{md,diff}.  Until the integrator applies the fix, a refusal of those forms is an informational
 # counter (set this to True afterwards: the refusal then is a failed call form); if a form is ACCEPTED its value must be the 2-D char
 # array's at property level in either case.
-LIST_STR_BATCH_REFUSAL_IS_VIOLATION = __import__("os").environ.get("QV_C03_F23_APPLIED") == "1"
+LIST_STR_BATCH_REFUSAL_IS_VIOLATION = True  # fix bfb5532 (F22) is applied in /repo: refusing the documented list[str] form is a violation
 
 
 def container_forms(ctx, st, kind, case, n, data, S, B, space_t, g, pp, ex, scale):
